@@ -400,4 +400,109 @@ theorem step_prefix (a y : Bytes) (w : Nat) (hne : a ≠ []) (h : step (a ++ y) 
             subst h; simp
     | (k + 5) => cases h
 
+
+/-! ### whole texts -/
+
+/-- the text is valid UTF-8 from the first to the last byte -/
+def Complete (b : Bytes) : Prop := utf8 b = (b.length, .complete)
+
+theorem complete_nil : Complete [] := utf8_nil
+
+/-- a valid text starts with a complete character, and the rest is valid -/
+theorem complete_cons (b0 : UInt8) (rest : Bytes) (h : Complete (b0 :: rest)) :
+    ∃ w, step (b0 :: rest) = .ok w ∧ 1 ≤ w ∧ w ≤ (b0 :: rest).length ∧ Complete ((b0 :: rest).drop w) := by
+  unfold Complete at h
+  rw [utf8_cons] at h
+  cases hs : step (b0 :: rest) with
+  | ok w =>
+    obtain ⟨h1, h2⟩ := step_ok_pos b0 rest w hs
+    refine ⟨w, rfl, h1, h2, ?_⟩
+    simp only [hs] at h
+    unfold Complete
+    have e1 := congrArg Prod.fst h
+    have e2 := congrArg Prod.snd h
+    simp only at e1 e2
+    have hl : (List.drop w (b0 :: rest)).length = (b0 :: rest).length - w := by simp
+    apply Prod.ext
+    · simp only; omega
+    · exact e2
+  | incomplete => simp [hs] at h
+  | invalid => simp [hs] at h
+
+theorem complete_of_step (b0 : UInt8) (rest : Bytes) (w : Nat) (hs : step (b0 :: rest) = .ok w)
+    (hc : Complete ((b0 :: rest).drop w)) : Complete (b0 :: rest) := by
+  obtain ⟨h1, h2⟩ := step_ok_pos b0 rest w hs
+  unfold Complete at hc ⊢
+  rw [utf8_cons, hs]
+  simp only [hc]
+  have hl : (List.drop w (b0 :: rest)).length = (b0 :: rest).length - w := by simp
+  apply Prod.ext
+  · simp only; omega
+  · rfl
+
+/-- valid ++ valid = valid -/
+theorem complete_append (a b : Bytes) (ha : Complete a) (hb : Complete b) : Complete (a ++ b) := by
+  generalize hn : a.length = n
+  induction n using Nat.strongRecOn generalizing a with
+  | _ n ih =>
+    cases a with
+    | nil => simpa using hb
+    | cons b0 rest =>
+      obtain ⟨w, hs, h1, h2, hc⟩ := complete_cons b0 rest ha
+      have hs' := step_ok_append (b0 :: rest) b w (by simp) hs
+      have hd : List.drop w ((b0 :: rest) ++ b) = List.drop w (b0 :: rest) ++ b := by
+        rw [List.drop_append_of_le_length h2]
+      have := ih (List.drop w (b0 :: rest)).length (by simp only [List.length_drop]; omega)
+        (List.drop w (b0 :: rest)) hc rfl
+      rw [← hd] at this
+      exact complete_of_step b0 (rest ++ b) w hs' this
+
+theorem complete_flatten (ls : List Bytes) (h : ∀ l ∈ ls, Complete l) : Complete ls.flatten := by
+  induction ls with
+  | nil => exact complete_nil
+  | cons l ls ih =>
+    simp only [List.flatten_cons]
+    exact complete_append _ _ (h l (by simp)) (ih fun x hx => h x (by simp [hx]))
+
+/-- a prefix of a valid text is never invalid: the scan accepts all of it except possibly an
+    incomplete last character, whose bytes are not ASCII (in particular not '\n') -/
+theorem prefix_tolerant (a y : Bytes) (h : Complete (a ++ y)) :
+    (utf8 a).2 ≠ .invalid ∧ (utf8 a).1 ≤ a.length ∧ ∀ x ∈ a.drop (utf8 a).1, x ≠ 10 := by
+  generalize hn : a.length = n
+  induction n using Nat.strongRecOn generalizing a with
+  | _ n ih =>
+    cases a with
+    | nil => simp [utf8_nil]
+    | cons b0 rest =>
+      obtain ⟨w, hs, h1, h2, hc⟩ := complete_cons b0 (rest ++ y) h
+      rcases step_prefix (b0 :: rest) y w (by simp) hs with ⟨hw, hsa⟩ | ⟨hw, hsa⟩
+      · have hd : List.drop w (b0 :: (rest ++ y)) = List.drop w (b0 :: rest) ++ y := by
+          rw [← List.cons_append, List.drop_append_of_le_length hw]
+        rw [hd] at hc
+        obtain ⟨i1, i2, i3⟩ := ih (List.drop w (b0 :: rest)).length
+          (by simp only [List.length_drop]; omega) (List.drop w (b0 :: rest)) hc rfl
+        rw [utf8_cons, hsa]
+        simp only
+        refine ⟨i1, ?_, ?_⟩
+        · simp only [List.length_drop] at i2; omega
+        · intro x hx
+          apply i3 x
+          rw [List.drop_drop]
+          rw [Nat.add_comm] at hx
+          exact hx
+      · rw [utf8_cons, hsa]
+        simp only [List.drop_zero]
+        exact ⟨by simp, by omega, step_incomplete_high _ hsa⟩
+
+/-- ASCII text is valid -/
+theorem complete_ascii (b : Bytes) (h : ∀ x ∈ b, x.toNat < 0x80) : Complete b := by
+  induction b with
+  | nil => exact complete_nil
+  | cons c rest ih =>
+    have hc : width c = 1 := by
+      have := h c (by simp)
+      simp [width, this]
+    have hs : step (c :: rest) = .ok 1 := by simp [step, hc]
+    exact complete_of_step c rest 1 hs (by simpa using ih fun x hx => h x (by simp [hx]))
+
 end L
